@@ -1233,6 +1233,8 @@ rfbBool rfbSendTextChatMessage(rfbClientPtr cl, uint32_t length, char *buffer)
         bytesToSend=length;
         if (bytesToSend>rfbTextMaxSize)
             bytesToSend=rfbTextMaxSize;
+        /* the length field must announce what is really sent */
+        tc.length = Swap32IfLE(bytesToSend);
     }
 
     if (cl->ublen + sz_rfbTextChatMsg + bytesToSend > UPDATE_BUF_SIZE) {
